@@ -149,7 +149,19 @@ def classify_doc(b: bytes) -> Tuple[str, Dict[str, Any]]:
 
 def reference(sc: Dict[str, Any]) -> Dict[str, Any]:
     """What the statement demands for this scenario."""
-    qtext = sc["query_effective"]
+    ref = _reference(sc, sc["query_effective"])
+    q = sc["query_effective"]
+    if q is not None and q.startswith("\ufeff") and sc.get("qfile_fault") == "bom" and ref["expect"] == "fail":
+        # a query file that starts with a byte-order mark: the statement does not say whether the
+        # mark belongs to the query (then it is invalid) or to the file (then the rest is the
+        # query); a clean refusal and the result for the rest are both accepted
+        alt = _reference(sc, q[1:].strip())
+        if alt["expect"] in ("ok", "either"):
+            return {"expect": "either", "outputs": alt.get("outputs", []), "phase": ref["phase"], "why": ref["why"] + " (byte-order mark at the start of the query file)", "unjudged_output": alt.get("unjudged_output", False)}
+    return ref
+
+
+def _reference(sc: Dict[str, Any], qtext: Any) -> Dict[str, Any]:
     if qtext is None:
         try:
             sc["files"][sc["names"]["q"]].encode("latin-1").decode("utf-8")
